@@ -533,3 +533,18 @@ def image_ops(kids, rng, dirc=False, path="@IMG@", nreads=3, dev="dd"):
             ops += nav + [f"open 1 0 0 {hx(p[-1])} 1", f"chdir 0 0 {hx(p[-1])}"]
     ops += ["toroot 0 0", "free 0 0", "unmount 0 0", "closedev 0"]
     return ops
+
+def gen_seqread(rng, nops=None):
+    """sequential access to a file of more than 72 (or 144) data blocks through one handle (for fault injection)"""
+    dostype = rng.randrange(6)
+    dbs = 512 if dostype & 1 else 488
+    ops = prologue(dostype, clock=(2019, 9, 8, 7, 6, 5))
+    nb = rng.choice([75, 80, 100, 146, 150])
+    size = nb * dbs - rng.choice([0, 1, 100])
+    ops += [f"open 1 0 0 {hx(b'other')} 2", "write 1 3000 2", "close 1",
+            f"open 1 0 0 {hx(b'big')} 2", f"write 1 {size} 9", "close 1", f"open 2 0 0 {hx(b'big')} {rng.choice([1, 1, 3])}"]
+    if rng.random() < 0.5: ops.append(f"seek 2 {rng.choice([60, 70, 71, 72, 73]) * dbs}")
+    for _ in range(rng.randint(10, 25)):
+        ops.append(f"read 2 {rng.choice([dbs, 2 * dbs, 1000, 3000, 5 * dbs + 3])}")
+    ops += ["stat 2", "close 2"] + epilogue()
+    return ops
